@@ -14,7 +14,9 @@ def main():
                       '(b) navigation_wu on every undirected 4-node graph and directed 3-node graph with lengths, random graphs n<=10, '
                       'nodal distances = Manhattan grid / ring / random symmetric integers, max_hops in {None,1,2,n}; '
                       'non-trivial = distinct case with a multi-hop path or an unreachable / failed pair')
-    ck.assumptions += ['empty diagonal, positive lengths, s != t (property quantifier)',
+    ck.assumptions += ['empty diagonal, positive lengths (property quantifier)',
+                       's = t: the code returns the empty sequence for every input (hops[s,s] = 0; theorem retrieve_self, predicate self-pair-empty); the path clauses are stated and checked for s != t',
+                       'every watchdog hit is counted per routine (coverage.timeouts); a routine timing out on more than 20 % of its calls is reported as a break',
                        'navigation_wu calls that hit the watchdog (greedy walk cycling with max_hops=None) are counted as timeouts: termination is not claimed',
                        "inexact float lengths ('log' transform, decimal lengths k/10): validated against the oracle by tolerance 1e-9 only, no model correspondence"]
     ok = ck.lean_gate(['BctVerif.Props.C12'], extra_modules=['BctVerif.Model.Dist'])
@@ -27,6 +29,7 @@ def main():
         cases += dc.gen_nav_cases(ck.rs, ck.tier)
     results = pmap(dc.run_case, cases)
     dc.absorb(ck, cases, results, FUNCS)
+    dc.timeout_rates(ck)
     if ok:
         dc.drive(ck, cases, results, 'paths')
     ck.finish()
